@@ -1,6 +1,25 @@
 //! vx-c19 — property C19: tokio-compatible primitives keep tokio's documented contracts.
 //!
-//! `check C19 quick|thorough|--replay <file>`; hidden sub-commands `worker`, `bench`, `describe`.
+//! `check C19 quick|thorough|--replay <file>`; hidden sub-commands `worker` (shard of a family, used
+//! by the check itself), `bench` / `describe` / `survey` (per-program numbers), `history` (several
+//! recorded executions one after the other in one process), `probe-timeleak` (stand-alone
+//! reproduction of the timeout-table leak described in fam_task.rs).
+//!
+//! E2 families over `shuttle-tokio-impl-inner`, all built on `vx` (program IR, exhaustive explorer,
+//! reference models, NFA co-simulation) through the per-program driver in `driver.rs`:
+//!
+//! | family      | primitives                                                     | file           |
+//! |-------------|----------------------------------------------------------------|----------------|
+//! | `tmpsc`     | mpsc bounded(1,2) / unbounded, tasks (+ cancellation)          | fam_mpsc.rs    |
+//! | `tmpsc_thr` | the same from plain threads (blocking_* and try_*)             | fam_mpsc.rs    |
+//! | `toneshot`  | oneshot                                                        | fam_oneshot.rs |
+//! | `twatch`    | watch                                                          | fam_watch.rs   |
+//! | `tnotify`   | Notify (with a data menu for the random waiter choice)        | fam_notify.rs  |
+//! | `tlock`     | Mutex / RwLock / Semaphore (+ cancellation of queued requests) | fam_lock.rs    |
+//! | `ttask`     | task::spawn / JoinHandle / abort / JoinSet, sleep, interval    | fam_task.rs    |
+//! | `ttime`     | time::timeout with the trigger_timeouts / clear_triggers hooks | fam_task.rs    |
+//!
+//! `patches/` holds the small fixes proposed for the findings of this check (not applied).
 mod driver;
 mod fam_lock;
 mod fam_mpsc;
